@@ -114,6 +114,10 @@ def run_property(prop: str, tier: str, repo: str, seed: int, args) -> int:
             exit_code = max(exit_code, 3)
         elif st == "unknown":
             undecided.append(oid)
+        elif st == "refuted" and all(o["meta"].get("protocol") for _, o in by_oid[oid] if o["verdict"] == "refuted"):
+            # hand-over clause between two blocks of a traversal: its failure says the lemma no longer matches how the code
+            # schedules its work, not that a result is wrong
+            undecided.append(f"{oid}: traversal protocol clause does not match the code (block lemma needs re-alignment)")
         elif st == "refuted":
             plain = [o for _, o in by_oid[oid] if o["verdict"] == "refuted"]
             kf = replay_mod.match_known_plain(known, oid, plain)
